@@ -949,6 +949,662 @@ PROPS = {k: _quiet(v) for k, v in {"reuse_tree": p_reuse_tree, "reuse_cb": p_reu
                                    "sibling_cb": p_sibling_cb, "binding": p_binding,
                                    "raw_shadow": p_raw_shadow}.items()}
 
+# ------------------------------------------------------------------ audit round: entry points most callers bypass,
+# default arguments / default-constructed objects, coincidences of special values, unusual byte classes, results edited
+# and sources used again, failure followed by retry.  Expectations come from the int/hashlib reference only.
+RULE += (" Audit: producers (P2PKTapScript from a point and from bytes, MultiSigTapScript, MuSigTapScript leaves, every "
+         "TapRootMultiSig tree builder incl. k = n, a single key and timelocked leaves) with the tree's OWN leaf objects; "
+         "calls with every optional argument omitted (tweak(), tweaked_key(), p2tr_script(), p2tr_address() on three "
+         "networks against an independent bech32m encoder, PrivateKey.tweaked_key(), TapLeaf(script), Witness(), "
+         "Witness(None), Witness([])), falsy explicit tweaks (b'' and 32 zero bytes); default-constructed witnesses "
+         "edited while another one is observed; Witness.parse / serialize / clone as the way into the script-path check, "
+         "the same witness verified twice and compared with its bytes afterwards; results (path lists, control blocks) "
+         "edited in place and the tree asked again; failure (unserialisable leaf, key at infinity, stranger leaf, bad "
+         "control-block length, non-bytes message) followed by the repaired question; one leaf / subtree OBJECT in "
+         "several positions, identical siblings; the four (internal parity, output parity) combinations, internal and "
+         "output keys whose x starts with a zero byte, all-zero / all-ff roots, hashes and scripts, a leaf script "
+         "longer than 65535 bytes; internal keys obtained through parse_sec (02/03/04), parse, parse_xonly and point "
+         "addition.")
+BECH_ = "qpzry9x8gf2tvdw0s3jn54khce6mua7l"
+
+
+def ref_p2tr_address(hrp, prog):
+    """BIP350 bech32m address of the version-1 witness program prog"""
+    def polymod(values):
+        chk = 1
+        for v in values:
+            top = chk >> 25
+            chk = (chk & 0x1ffffff) << 5 ^ v
+            for i, g in enumerate((0x3b6a57b2, 0x26508e6d, 0x1ea119fa, 0x3d4233dd, 0x2a1462b3)):
+                if (top >> i) & 1:
+                    chk ^= g
+        return chk
+    data, acc, bits = [1], 0, 0
+    for byte in prog:
+        acc = (acc << 8) | byte
+        bits += 8
+        while bits >= 5:
+            bits -= 5
+            data.append((acc >> bits) & 31)
+    if bits:
+        data.append((acc << (5 - bits)) & 31)
+    hx = [ord(c) >> 5 for c in hrp] + [0] + [ord(c) & 31 for c in hrp]
+    pm = polymod(hx + data + [0] * 6) ^ 0x2bc830a3
+    return hrp + "1" + "".join(BECH_[d] for d in data + [(pm >> 5 * (5 - i)) & 31 for i in range(6)])
+
+
+def ref_witness_ser(items):
+    return ref_compact(len(items)) + b"".join(ref_compact(len(i)) + i for i in items)
+
+
+def _ref_cb_bytes(tv, idx, px, q):
+    lvs = tree_leaves(tv)
+    return bytes([lvs[idx][0] + q[1] % 2]) + px.to_bytes(32, "big") + b"".join(ref_path(tv, idx))
+
+
+def p_defaults(secret, root):
+    """every optional argument omitted, and falsy explicit ones: tweak(), tweaked_key(), p2tr_script(), p2tr_address(),
+    PrivateKey.tweaked_key(), TapLeaf(script) against the BIP341 / BIP350 reference"""
+    pt = ref_mul(secret, G_)
+    priv = PrivateKey(secret)
+    P = priv.point
+    if enc_point(P) != list(pt):
+        return "public key differs from secret * G"
+    x = pt[0]
+    xb = x.to_bytes(32, "big")
+    t0 = ref_tagged(b"TapTweak", xb)
+    q0 = ref_output(x, b"")
+    qr = ref_output(x, root)
+    if P.tweak() != t0:
+        return "tweak() without arguments differs from H_TapTweak(x)"
+    if enc_point(P.tweaked_key()) != list(q0):
+        return "tweaked_key() without arguments differs from lift_x(P) + H_TapTweak(x) G"
+    if list(P.p2tr_script().commands) != [0x51, q0[0].to_bytes(32, "big")]:
+        return "p2tr_script() without arguments differs from OP_1 <x(Q)>"
+    if P.p2tr_address() != ref_p2tr_address("bc", q0[0].to_bytes(32, "big")):
+        return "p2tr_address() without arguments differs from the bech32m address of the key-path-only output key"
+    for kw, hrp in (({"network": "signet"}, "tb"), ({"network": "regtest"}, "bcrt"), ({}, "bc")):
+        if P.p2tr_address(root, **kw) != ref_p2tr_address(hrp, qr[0].to_bytes(32, "big")):
+            return f"p2tr_address(root, {kw}) does not commit to the merkle root (differs from the bech32m address of Q)"
+    if P.p2tr_address(merkle_root=root, network="testnet") != ref_p2tr_address("tb", qr[0].to_bytes(32, "big")):
+        return "p2tr_address(merkle_root=...) does not commit to the merkle root"
+    t2 = ref_tagged(b"TapTweak", xb + root + b"x")
+    q2 = ref_add(ref_lift_x(x), ref_mul(int.from_bytes(t2, "big"), G_))
+    if list(P.p2tr_script(root, t2).commands) != [0x51, q2[0].to_bytes(32, "big")]:
+        return "p2tr_script(root, tweak) does not use the explicit tweak"
+    if P.p2tr_address(root, t2, "signet") != ref_p2tr_address("tb", q2[0].to_bytes(32, "big")):
+        return "p2tr_address(root, tweak, network) does not use the explicit tweak"
+    for falsy in (b"", bytes(32)):
+        if enc_point(P.tweaked_key(root, tweak=falsy)) != list(ref_lift_x(x)):
+            return f"tweaked_key(root, tweak={falsy!r}) (t = 0) is not the even internal key"
+    tw = priv.tweaked_key()
+    e = secret if pt[1] % 2 == 0 else N_ - secret
+    if tw.secret != (e + int.from_bytes(t0, "big")) % N_ or enc_point(tw.point) != list(q0):
+        return "PrivateKey.tweaked_key() without arguments differs from (even_secret + t) mod n"
+    for cmds in ([0x51], [xb, 0xac]):
+        leaf = TapLeaf(Script(list(cmds)))
+        if leaf.tapleaf_version != 0xc0 or leaf.hash() != ref_leaf_hash(0xc0, ref_script(cmds)):
+            return "TapLeaf(script) without a version is not a version-0xc0 leaf"
+    return None
+
+
+def p_witness_default(items, extra):
+    """default-constructed witnesses do not share state; clone / parse / serialize keep the stack"""
+    items = list(items)
+    for make in (lambda: Witness(), lambda: Witness(None), lambda: Witness([]), lambda: Witness(items=None)):
+        a = make()
+        if len(a) != 0 or a.items != [] or a.has_annex():
+            return "a witness constructed without items is not empty"
+        a.items.append(extra)
+        a.items.extend(items)
+        a.items.append(b"\x50" + extra)
+        b = make()
+        if len(b) != 0 or b.items != [] or b.has_annex():
+            return "a witness constructed without items shows the items appended to ANOTHER such witness"
+        b.items.append(b"zz")
+        if a.items != [extra] + items + [b"\x50" + extra]:
+            return "editing one default-constructed witness changed another one"
+        del a.items[:]
+    if Script().commands != [] or TapScript().commands != []:
+        return "a default-constructed script is not empty"
+    s1 = TapScript()
+    s1.commands.append(0x51)
+    if TapScript().commands != [] or TapScript().tap_leaf().hash() != ref_leaf_hash(0xc0, b""):
+        return "a default-constructed TapScript shows the commands appended to another one"
+    w = Witness(list(items))
+    c = w.clone()
+    w.items.append(b"\x50" + extra)
+    if c.items != items or len(c) != len(items):
+        return "clone() shares the item list with its source (append on the source shows in the clone)"
+    c.items.insert(0, extra)
+    c.items.pop()
+    if w.items != items + [b"\x50" + extra]:
+        return "clone() shares the item list with its source (edit of the clone shows in the source)"
+    ser = ref_witness_ser(items)
+    if Witness(list(items)).serialize() != ser:
+        return "Witness.serialize differs from compact_size(count) || compact_size(len) || item ..."
+    back = Witness.parse(io.BytesIO(ser + b"tail"))
+    if back.items != items or len(back) != len(items) or any(back[i] != items[i] for i in range(len(items))):
+        return "Witness.parse(serialisation) differs from the items"
+    want = len(items) >= 2 and len(items[-1]) > 0 and items[-1][0] == 0x50
+    if bool(back.has_annex()) != want or bool(c.has_annex()) != bool(Witness(list(c.items)).has_annex()):
+        return "has_annex of a parsed / cloned witness differs from the BIP341 rule"
+    return None
+
+
+def p_respend(tv, pv, idx, annex):
+    """script-path spend entered through Witness.parse of independently encoded bytes (reference control block, reference
+    script bytes, reference output key): verifies, verifies AGAIN, and the witness still holds the same bytes afterwards
+    (the annex is not eaten); a clone of the used witness verifies too"""
+    px = pv[0]
+    root = ref_root(tv)
+    q = ref_output(px, root)
+    lvs = tree_leaves(tv)
+    raw_sc = ref_script(lvs[idx][1][0])
+    items = [raw_sc, _ref_cb_bytes(tv, idx, px, q)]
+    if annex:
+        items.append(b"\x50" + annex)
+    ser = ref_witness_ser(items)
+    tx_obj, tx_in = _spend_tx(P2TRScriptPubKey(q[0].to_bytes(32, "big")))
+    w = Witness.parse(io.BytesIO(ser))
+    tx_in.witness = w
+    for n in (1, 2):
+        try:
+            ok = bool(tx_obj.verify_input(0))
+        except Exception as e:
+            return f"verification number {n} of the reference script-path witness raises {type(e).__name__}"
+        if not ok:
+            return f"verification number {n} of the reference script-path witness fails"
+        if tx_in.witness is not w or w.items != items or w.serialize() != ser:
+            return f"the witness of the input changed during verification number {n} (annex / items eaten)"
+    got = outcome_(lambda: w.control_block().serialize())
+    if got != items[1]:
+        return "control_block() of the used witness is no longer the control-block item"
+    tx_in.witness = w.clone()
+    w.items.clear()
+    if not _verify_keep(tx_obj):
+        return "a clone of the witness does not verify after its source was emptied"
+    # the tree's own control block is the reference one
+    cb = mk_tree(tv).control_block(mk_point(pv), mk_leaf(lvs[idx]))
+    if cb is None or cb.serialize() != items[1]:
+        return "the control block built by the library differs from version+parity || x(P) || sibling path"
+    return None
+
+
+def outcome_(f):
+    try:
+        return f()
+    except Exception:
+        return ERR_
+
+
+def _verify_keep(tx_obj):
+    try:
+        return bool(tx_obj.verify_input(0))
+    except Exception:
+        return False
+
+
+def _check_cb(cb, tv, idx, px, q, where):
+    lvs = tree_leaves(tv)
+    if cb is None:
+        return f"{where}: no control block for leaf {idx}"
+    if cb.tapleaf_version != lvs[idx][0] or cb.parity != q[1] % 2 or list(cb.hashes) != ref_path(tv, idx) \
+            or cb.internal_pubkey.xonly() != px.to_bytes(32, "big"):
+        return f"{where}: control block fields of leaf {idx} differ from (version, parity of Q, P, sibling path)"
+    if cb.serialize() != _ref_cb_bytes(tv, idx, px, q):
+        return f"{where}: control block bytes of leaf {idx} differ from the reference"
+    if cb.merkle_root(mk_script(lvs[idx][1])) != ref_root(tv):
+        return f"{where}: control block of leaf {idx} does not recompute the merkle root"
+    return None
+
+
+def p_result_edit(tv, pv, seed):
+    """answers (path lists, control blocks, leaf lists of leaves) edited in place by the caller, then the SAME tree asked
+    again: the second answer is the reference again and is a new object"""
+    import random
+    r = random.Random(seed)
+    tree = mk_tree(tv)
+    P = mk_point(pv)
+    px = pv[0]
+    q = ref_output(px, ref_root(tv))
+    lvs = tree_leaves(tv)
+    objs = _leaf_objs(tree)
+    junk = bytes(r.getrandbits(8) for _ in range(32))
+    alive = []
+    for idx in sorted(r.sample(range(len(lvs)), min(2, len(lvs)))):
+        arg = objs[idx] if r.random() < 0.5 else mk_leaf(lvs[idx])
+        ph = tree.path_hashes(arg)
+        if list(ph) != ref_path(tv, idx):
+            return f"path_hashes(leaf {idx}) differs from the sibling path"
+        ph.append(junk)
+        ph.reverse()
+        if ph:
+            ph[0] = junk
+        ph2 = tree.path_hashes(arg)
+        if ph2 is ph or list(ph2) != ref_path(tv, idx):
+            return f"path_hashes(leaf {idx}) after the caller edited the previous answer differs from the sibling path"
+        cb = tree.control_block(P, arg)
+        d = _check_cb(cb, tv, idx, px, q, "first answer")
+        if d:
+            return d
+        cb.hashes.append(junk)
+        cb.hashes.reverse()
+        cb.tapleaf_version ^= 2
+        cb.parity ^= 1
+        cb.internal_pubkey = mk_point([G_[0], G_[1]])
+        cb2 = tree.control_block(P, arg)
+        d = _check_cb(cb2, tv, idx, px, q, "after the caller edited the previous control block")
+        if d:
+            return d
+        if cb2 is cb or cb2.hashes is cb.hashes:
+            return "two control blocks handed out by the tree share their hash list"
+        cb3 = tree.control_block(P, arg)
+        alive.append((idx, cb3, ControlBlock.parse(_ref_cb_bytes(tv, idx, px, q))))
+        cb2.hashes.clear()
+        if list(tree.path_hashes(arg)) != ref_path(tv, idx):
+            return "path_hashes after the caller emptied a control block's hash list differs from the sibling path"
+    for idx, cb3, parsed in alive:
+        for c, what in ((cb3, "built"), (parsed, "parsed")):
+            d = _check_cb(c, tv, idx, px, q, f"{what} control block kept while others were {what} and edited")
+            if d:
+                return d
+    if len(alive) == 2 and (alive[0][1].hashes is alive[1][1].hashes or alive[0][2].hashes is alive[1][2].hashes):
+        return "two live control blocks share their hash list"
+    if tree.hash() != ref_root(tv) or enc_point(tree.external_pubkey(P)) != list(q):
+        return "root / output key changed after the caller edited answers"
+    # single leaves as whole trees: the empty path of one control block is not the empty path of the next
+    la, lb = mk_leaf(lvs[0]), mk_leaf(lvs[-1])
+    ca = la.control_block(P)
+    ca.hashes.append(junk)
+    la.path_hashes(None).append(junk)
+    la.leaves().append(lb)
+    for leaf, lv in ((lb, lvs[-1]), (la, lvs[0])):
+        for c in (leaf.control_block(P), leaf.control_block(P, mk_leaf(lv))):
+            qs = ref_output(px, ref_root([0] + lv))
+            if c is None or c.hashes != [] or c.serialize() != bytes([lv[0] + qs[1] % 2]) + px.to_bytes(32, "big"):
+                return "the control block of a single-leaf tree is not version+parity || x(P) after ANOTHER control " \
+                       "block's (empty) hash list was appended to"
+        if leaf.path_hashes(leaf) != [] or len(leaf.leaves()) != 1 or leaf.leaves()[0] is not leaf:
+            return "path_hashes / leaves of a single leaf changed after the caller edited a previous answer"
+    return None
+
+
+def p_shared_nodes(svs, vers):
+    """ONE leaf object / ONE subtree object placed at several positions of a tree (and identical siblings built from
+    separate objects): root and every sibling path equal the BIP341 reference of the tree read through its fields"""
+    ls = [TapLeaf(mk_script(sv), v) for sv, v in zip(svs, vers)]
+    sub = TapBranch(ls[0], ls[1])
+    trees = [TapBranch(ls[0], ls[0]), TapBranch(sub, sub), TapBranch(sub, TapBranch(ls[2], sub)),
+             TapBranch(TapBranch(ls[0], ls[0]), TapBranch(ls[0], ls[0])),
+             TapBranch(mk_leaf([vers[0], svs[0]]), mk_leaf([vers[0], svs[0]])),
+             TapBranch(TapBranch(sub, ls[2]), TapBranch(ls[2], sub))]
+    for n, tree in enumerate(trees):
+        for rep in (0, 1):
+            cur = enc_tree(tree)
+            root = ref_root(cur)
+            if tree.hash() != root:
+                return f"tree {n}: root of a tree with a shared node differs from the reference"
+            lvs = tree_leaves(cur)
+            got = tree.leaves()
+            want = _leaf_objs(tree)
+            if len(got) != len(want) or any(a is not b for a, b in zip(got, want)):
+                return f"tree {n}: leaves() is not the in-order leaf list"
+            for i, lv in enumerate(lvs):
+                first = [j for j, o in enumerate(lvs) if o == lv][0]          # == leaves: the leftmost position answers
+                ph = tree.path_hashes(want[i])
+                if ph is None or list(ph) != ref_path(cur, first):
+                    return f"tree {n}: path_hashes(leaf {i}) differs from the sibling path of its leftmost occurrence"
+                cb = ControlBlock(lv[0], 0, None, ph)
+                if cb.merkle_root(want[i].tap_script) != root:
+                    return f"tree {n}: the path of leaf {i} does not recompute the root"
+    return None
+
+
+def p_retry(tv, pv, seed):
+    """a question that fails (unserialisable leaf, key at infinity, leaf not in the tree, malformed control block,
+    message of the wrong type) followed by the repaired question on the SAME objects: the answer is the reference"""
+    from buidl import hash as bh
+    tree = mk_tree(tv)
+    P = mk_point(pv)
+    px = pv[0]
+    objs = _leaf_objs(tree)
+    victim = objs[-1]
+    good = victim.tap_script
+    victim.tap_script = Script([bytes(521)])
+    failed = 0
+    for f in (tree.hash, tree.leaves, lambda: tree.path_hashes(objs[0]), lambda: tree.control_block(P, objs[0]),
+              lambda: tree.external_pubkey(P), lambda: tree.control_block(P, victim), lambda: victim.control_block(P)):
+        failed += outcome_(f) == ERR_
+    if not failed:
+        return "harness: no question failed on a tree with an unserialisable leaf"
+    victim.tap_script = good
+    outcome_(lambda: tree.control_block(S256Point(None, None), objs[0]))
+    outcome_(lambda: tree.external_pubkey(S256Point(None, None)))
+    stranger = TapLeaf(Script([b"not in the tree", 0x75, 0x51]))
+    if len(objs) > 1 and (tree.control_block(P, stranger) is not None or tree.path_hashes(stranger) is not None):
+        return "control block / path handed out for a leaf that is not in the tree"
+    outcome_(lambda: P.tweaked_key("not bytes"))
+    outcome_(lambda: P.tweak(None))
+    if len(objs) > 1:
+        objs[0].tap_script = Script(list(stranger.tap_script.commands))       # the stranger is a member now
+        objs[0].tapleaf_version = 0xc0
+        ph = tree.path_hashes(stranger)
+        if ph is None or list(ph) != ref_path(enc_tree(tree), 0):
+            return "a leaf that was asked for before it was put into the tree gets no / a wrong path afterwards"
+        if tree.control_block(P, stranger) is None:
+            return "a leaf that was asked for before it was put into the tree gets no control block afterwards"
+    cur = enc_tree(tree)
+    root = ref_root(cur)
+    q = ref_output(px, root)
+    if tree.hash() != root:
+        return "root after a failed question differs from the reference"
+    if enc_point(tree.external_pubkey(P)) != list(q):
+        return "output key after a failed question differs from the reference"
+    for idx in (0, len(objs) - 1):
+        d = _check_cb(tree.control_block(P, objs[idx]), cur, idx, px, q, "after a failed question")
+        if d:
+            return d
+    raw = _ref_cb_bytes(cur, 0, px, q)
+    for bad in (raw[:-1], raw + b"\x00", raw[:32], b"", bytes([raw[0]]) + (P_ + 1).to_bytes(32, "big") + raw[33:]):
+        if outcome_(lambda: ControlBlock.parse(bad)) != ERR_:
+            return "malformed control block accepted"
+        if outcome_(lambda: ControlBlock.parse(raw).serialize()) != raw:
+            return "control block codec after a rejected parse"
+    tag = b"audit/" + seed.to_bytes(4, "big")
+    for t in (tag, b"TapLeaf", b"TapBranch", b"TapTweak"):
+        for badmsg in ("text", None, 5):
+            if outcome_(lambda: bh.tagged_hash(t, badmsg)) != ERR_:
+                return "tagged_hash accepts a message that is not bytes"
+        if bh.tagged_hash(t, b"m" + tag) != ref_tagged(t, b"m" + tag):
+            return f"tagged_hash({t!r}) after a failed call differs from the BIP340 tagged hash"
+    if bh.hash_tapleaf(b"x") != ref_tagged(b"TapLeaf", b"x") or tree.hash() != root:
+        return "TapLeaf hash after failed tagged-hash calls"
+    return None
+
+
+def ref_multisig_cmds(xonlys, k):
+    xs = sorted(xonlys)
+    cmds = [xs[0], 0xac]
+    if len(xs) > 1:
+        for x in xs[1:]:
+            cmds += [x, 0xba]
+        cmds += [0x50 + k, 0x87]
+    return cmds
+
+
+def p_producers(secrets, k, mode):
+    """trees and leaves made by the library's producers (P2PKTapScript, MultiSigTapScript, MuSigTapScript leaves,
+    TapRootMultiSig.*): read through their public fields they commit as BIP341 says, and every leaf OBJECT of the tree
+    gets its own sibling path / control block"""
+    from buidl.taproot import MultiSigTapScript, P2PKTapScript, TapRootMultiSig
+    from buidl.timelock import Locktime, Sequence
+    pts = [ref_mul(s, G_) for s in secrets]
+    xonlys = [p[0].to_bytes(32, "big") for p in pts]
+    points = [S256Point(p[0], p[1]) for p in pts]
+    n = len(points)
+    import math
+    if mode == 0:
+        # single-key and multisig leaf scripts, from points and from bytes
+        for p, xb in zip(points, xonlys):
+            for arg in (p, xb):
+                leaf = P2PKTapScript(arg).tap_leaf()
+                if leaf.tapleaf_version != 0xc0 or leaf.hash() != ref_leaf_hash(0xc0, b"\x20" + xb + b"\xac"):
+                    return "P2PKTapScript(...).tap_leaf() is not the version-0xc0 leaf of <x> OP_CHECKSIG"
+        ms = MultiSigTapScript(points, k)
+        want = ref_script(ref_multisig_cmds(xonlys, k))
+        if ms.tap_leaf().hash() != ref_leaf_hash(0xc0, want) or ms.raw_serialize() != want:
+            return "MultiSigTapScript(...).tap_leaf() is not the leaf of the sorted-key CHECKSIGADD script"
+        if MultiSigTapScript(points[::-1], k).tap_leaf().hash() != ms.tap_leaf().hash():
+            return "MultiSigTapScript leaf depends on the order of the keys"
+        a = MultiSigTapScript(points, k, locktime=Locktime(500000001))
+        b = MultiSigTapScript(points, k, sequence=Sequence.from_relative_blocks(7))
+        hs = {ms.tap_leaf().hash(), a.tap_leaf().hash(), b.tap_leaf().hash()}
+        if len(hs) != 3:
+            return "leaves with / without a timelock have the same leaf hash"
+        for s in (a, b):
+            tail = ref_multisig_cmds(xonlys, k)
+            if s.tap_leaf().hash() != ref_leaf_hash(0xc0, ref_script(s.commands)) or s.commands[-len(tail):] != tail \
+                    or len(s.commands) != len(tail) + 3 or s.commands[1:3] not in ([0xb1, 0x75], [0xb2, 0x75]):
+                return "timelocked multisig leaf is not <timelock> || the sorted-key CHECKSIGADD script"
+        return None
+    m = TapRootMultiSig(points, k)
+    comb = math.comb(n, k)
+    if mode == 1:
+        trees = [(m.single_leaf(), 1), (m.multi_leaf_tree(), comb), (m.everything_tree(), 1 + 2 * comb)]
+    elif mode == 2:
+        trees = [(m.musig_and_single_leaf_tree(), 1 + comb), (m.musig_tree(), comb)]
+    else:
+        trees = [(m.degrading_multisig_tree(sequence_block_interval=6), sum(math.comb(n, j) for j in range(1, k + 1))),
+                 (m.degrading_multisig_tree(sequence_time_interval=512 * 3), sum(math.comb(n, j) for j in range(1, k + 1))),
+                 (m.single_leaf(sequence=Sequence.from_relative_blocks(9)), 1),
+                 (m.multi_leaf_tree(locktime=Locktime(700000)), comb)]
+    P = m.default_internal_pubkey if mode == 2 else points[0]
+    px = P.x.num
+    for tn, (tree, count) in enumerate(trees):
+        cur = enc_tree(tree)
+        lvs = tree_leaves(cur)
+        objs = _leaf_objs(tree)
+        where = f"mode {mode} tree {tn}"
+        if len(lvs) != count:
+            return f"{where}: {len(lvs)} leaves, expected {count}"
+        if any(lv[0] != 0xc0 or lv[1][1] for lv in lvs):
+            return f"{where}: a produced leaf is not a plain version-0xc0 leaf"
+        if mode == 1 and tn < 2:
+            import itertools
+            wanted = [ref_multisig_cmds(list(c), k) for c in itertools.combinations(xonlys, k)] if tn else \
+                [ref_multisig_cmds(xonlys, k)]
+            if [lv[1][0] for lv in lvs] != wanted:
+                return f"{where}: leaf scripts are not the k-of-k scripts of the key combinations"
+        root = ref_root(cur)
+        if tree.hash() != root:
+            return f"{where}: root differs from the BIP341 root of the produced tree"
+        for i, o in enumerate(objs):
+            first = [j for j, lv in enumerate(lvs) if lv == lvs[i]][0]
+            ph = tree.path_hashes(o)
+            if ph is None or list(ph) != ref_path(cur, first):
+                return f"{where}: path_hashes(leaf object {i}) differs from the sibling path"
+            ph = tree.path_hashes(mk_leaf(lvs[i]))
+            if ph is None or list(ph) != ref_path(cur, first):
+                return f"{where}: path_hashes(plain leaf with the version and script of leaf {i}) differs from the sibling path"
+        q = ref_output(px, root)
+        if enc_point(tree.external_pubkey(P)) != list(q):
+            return f"{where}: output key differs from the BIP341 reference"
+        for i in sorted({0, len(objs) - 1}):
+            if [j for j, lv in enumerate(lvs) if lv == lvs[i]][0] != i:
+                continue
+            d = _check_cb(tree.control_block(P, objs[i]), cur, i, px, q, where)
+            if d:
+                return d
+    return None
+
+
+def p_key_routes(secret, root):
+    """the same internal key obtained through every constructor (coordinates, SEC 02/03/04, x-only, parse, a sum of
+    points, secret * G), both y: parity, x-only bytes, even point, output key and a one-leaf control block equal the
+    reference"""
+    pt = ref_mul(secret, G_)
+    one_less = ref_mul(secret - 1, G_)
+    x = pt[0]
+    xb = x.to_bytes(32, "big")
+    q = ref_output(x, root)
+    for y in (pt[1], P_ - pt[1]):
+        yb = y.to_bytes(32, "big")
+        routes = [("S256Point(x, y)", lambda: S256Point(x, y)),
+                  ("parse_sec(compressed)", lambda: S256Point.parse_sec(bytes([2 + y % 2]) + xb)),
+                  ("parse(compressed)", lambda: S256Point.parse(bytes([2 + y % 2]) + xb)),
+                  ("parse_sec(uncompressed)", lambda: S256Point.parse_sec(b"\x04" + xb + yb)),
+                  ("parse(uncompressed)", lambda: S256Point.parse(b"\x04" + xb + yb))]
+        if y % 2 == 0:
+            routes += [("parse_xonly", lambda: S256Point.parse_xonly(xb)), ("parse(x-only)", lambda: S256Point.parse(xb))]
+        if y == pt[1]:
+            routes += [("(s-1)G + G", lambda: S256Point(one_less[0], one_less[1]) + S256Point(G_[0], G_[1])),
+                       ("PrivateKey(s).point", lambda: PrivateKey(secret).point)]
+        for name, make in routes:
+            Pt = make()
+            if enc_point(Pt) != [x, y] or Pt.parity != y % 2 or Pt.xonly() != xb:
+                return f"{name}: coordinates / parity / x-only bytes"
+            if enc_point(Pt.even_point()) != list(ref_lift_x(x)):
+                return f"{name}: even_point"
+            if Pt.tweak(root) != ref_tagged(b"TapTweak", xb + root):
+                return f"{name}: tweak"
+            if name.startswith("parse("):
+                continue                                   # a dispatcher over the two parsers checked in full
+            if enc_point(Pt.tweaked_key(root)) != list(q):
+                return f"{name}: output key differs from lift_x(x) + tG"
+        leaf = TapLeaf(Script([xb, 0xac]))
+        ql = ref_output(x, ref_leaf_hash(0xc0, b"\x20" + xb + b"\xac"))
+        cb = leaf.control_block(make())
+        if cb.serialize() != bytes([0xc0 + ql[1] % 2]) + xb:
+            return "one-leaf control block under a key obtained by parsing"
+    return None
+
+
+def p_p2pk_entry(secret):
+    """S256Point.p2pk_tap_script() is the single-key leaf script <x> OP_CHECKSIG of the point (the shortcut next to
+    p2tr_script / p2tr_address)"""
+    pt = ref_mul(secret, G_)
+    P = S256Point(pt[0], pt[1])
+    xb = pt[0].to_bytes(32, "big")
+    try:
+        sc = P.p2pk_tap_script()
+    except Exception as e:                  # fixed in cf7650d: the import named buidl.script instead of buidl.taproot
+        return f"S256Point.p2pk_tap_script() raises {type(e).__name__}: {e}"
+    if list(sc.commands) != [xb, 0xac] or sc.tap_leaf().tapleaf_version != 0xc0:
+        return "p2pk_tap_script() is not <x-only> OP_CHECKSIG at leaf version 0xc0"
+    if sc.raw_serialize() != b"\x20" + xb + b"\xac" or sc.tap_leaf().hash() != ref_leaf_hash(0xc0, b"\x20" + xb + b"\xac"):
+        return "p2pk_tap_script() is not the version-0xc0 leaf script <x> OP_CHECKSIG"
+    return None
+
+
+PROPS.update({k: _quiet(v) for k, v in {"p2pk_entry": p_p2pk_entry, "defaults": p_defaults, "witness_default": p_witness_default,
+                                        "respend": p_respend, "result_edit": p_result_edit,
+                                        "shared_nodes": p_shared_nodes, "retry": p_retry, "producers": p_producers,
+                                        "key_routes": p_key_routes}.items()})
+
+
+def _grind_key(cond, start=1):
+    """smallest secret >= start whose public key (reference arithmetic) satisfies cond"""
+    pt = ref_mul(start, G_)
+    s = start
+    while not cond(pt):
+        pt = ref_add(pt, G_)
+        s += 1
+    return s, [pt[0], pt[1]]
+
+
+def audit_cases(ctx):
+    r = ctx.rng
+    thorough = ctx.tier == "thorough"
+    # (c)/(f) the four (internal parity, output parity) combinations on a one-leaf and a three-leaf tree
+    for par in (0, 1):
+        for out in (0, 1):
+            s, pv = _grind_key(lambda p: p[1] % 2 == par, 3 + par)
+            i = 0
+            while True:
+                leaf = [0, 0xc0 if out == par else 0xc2, [[bytes([par, out, i]), 0x75, 0x51], []]]
+                tv = leaf if par == out else [1, [0, 0xfe, [[b"\x01", 0x75, 0x52], []]], [1, leaf, [0, 0xc0, [[b"\x02", 0x75, 0x53], []]]]]
+                if ref_output(pv[0], ref_root(tv))[1] % 2 == out:
+                    break
+                i += 1
+            ctx.label(f"audit/parity internal={par} output={out}")
+            yield ("prop", "tree", [tv, pv])
+            yield ("corr", "control_block", [tv, pv, tree_leaves(tv)[-1]])
+            if par != out:
+                yield ("prop", "respend", [tv, pv, 1, b"" if par else b"\x01\x02"])
+    # (d) internal key / output key whose x starts with a zero byte
+    s0, pz = _grind_key(lambda p: p[0] >> 248 == 0)
+    for pv in (pz, [pz[0], P_ - pz[1]]):
+        tv = [1, [0, 0xc0, [[b"lz", 0x75, 0x51], []]], [0, 0xc2, [[bytes(20), 0x75, 0x51], []]]]
+        ctx.label("audit/internal key x with a leading zero byte")
+        yield ("prop", "tree", [tv, pv])
+        yield ("corr", "tree_external_pubkey", [tv, pv])
+        yield ("corr", "cb_parse", [bytes([0xc1]) + pv[0].to_bytes(32, "big") + bytes(32)])
+        yield ("prop", "cb_converse", [bytes([0xc1]) + pv[0].to_bytes(32, "big") + b"\xff" * 32])
+    zroot = hashlib.sha256((111).to_bytes(2, "big")).digest()        # ground offline: first counter with x(Q) < 2^248
+    assert s0 == 153 and ref_output(pz[0], zroot)[0] >> 248 == 0
+    ctx.label("audit/output key x with a leading zero byte")
+    yield ("corr", "tweaked_key", [pz, zroot])
+    yield ("corr", "priv_tweaked_key", [s0, zroot])
+    yield ("prop", "priv_pub", [s0, zroot])
+    yield ("prop", "defaults", [s0, zroot])
+    ctx.label("audit/defaults")
+    yield ("prop", "defaults", [_grind_key(lambda p: p[1] % 2 == 1, 11)[0], b"\xff" * 32])
+    # (d) all-zero / all-ff roots, sibling hashes, scripts; (c) leaf hash == sibling hash
+    for root in (bytes(32), b"\xff" * 32, bytes(31) + b"\x01", b"\x00"):
+        yield ("corr", "tweak", [pz, root])
+        yield ("corr", "priv_tweaked_key", [N_ - s0, root])
+    sv_zero, sv_ff = [[0x00] * 40, []], [[bytes(75), b"\xff" * 76, 0x75, 0x75, 0x51], []]
+    for hs in ([bytes(32)], [b"\xff" * 32], [bytes(32), b"\xff" * 32, bytes(32)], [b"\xff" * 32] * 3):
+        for sv in (sv_zero, sv_ff):
+            ctx.label("audit/all-zero all-ff hashes")
+            yield ("corr", "cb_merkle_root", [[0x00, 0, pz, hs], sv])
+        yield ("prop", "reuse_cb", [[0xfe, 1, pz, hs], [sv_zero, sv_ff, [[b"\x00", 0x75, 0x51], []]],
+                                    [pz, [pz[0], P_ - pz[1]]], r.getrandbits(30), 12])
+    own = ref_leaf_hash(0xc0, ref_script(sv_ff[0]))
+    yield ("corr", "cb_merkle_root", [[0xc0, 0, pz, [own, own]], sv_ff])           # sibling hash == own hash
+    tz = [1, [0, 0xc0, sv_zero], [1, [0, 0x00, sv_ff], [0, 0xfe, sv_zero]]]
+    yield ("corr", "tree_hash", [tz])
+    yield ("prop", "tree", [tz, pz])
+    # (d) a leaf script longer than 65535 bytes (compact size with the 0xfe prefix)
+    huge = [0, 0xc0, [[bytes([j]) * 520 for j in range(127)] + [0x6d] * 63 + [0x75, 0x51], []]]
+    ctx.label("audit/leaf script longer than 65535 bytes")
+    yield ("corr", "leaf_hash", [[huge[1], huge[2]]])
+    yield ("corr", "tree_hash", [[1, huge, [0, 0xc0, sv_zero]]])
+    yield ("prop", "sibling", [[1, huge, [0, 0xc0, sv_zero]], 1])
+    yield ("prop", "binding", [[1, huge, [0, 0xc0, [[b"\x07"], []]]], 1, [0]])
+    yield ("prop", "tree", [[1, [0, 0xc0, sv_zero], huge], pz])
+    # (c) identical siblings, one object at several positions
+    la = [0, 0xc0, [[b"same", 0x75, 0x51], []]]
+    for tv in ([1, la, la], [1, [1, la, la], [1, la, la]], [1, la, [1, [0, 0xc2, la[2]], la]]):
+        ctx.label("audit/identical siblings")
+        yield ("corr", "tree_hash", [tv])
+        for lv in tree_leaves(tv)[-2:]:
+            yield ("corr", "path_hashes", [tv, lv])
+        yield ("corr", "control_block", [tv, pz, tree_leaves(tv)[-1]])
+    yield ("prop", "sibling_cb", [[1, la, [1, [0, 0xc2, la[2]], la]], 1, pz])
+    yield ("prop", "tree", [[1, la, la], pz])
+    for _ in range(ctx.n(2, 10)):
+        svs = [true_script(r, ctx, i, big=(i == 1 and r.random() < 0.5)) for i in range(3)]
+        ctx.label("audit/shared node objects")
+        yield ("prop", "shared_nodes", [svs, [r.choice(VERSIONS) for _ in range(3)]])
+    # (b) default-constructed witnesses; (a) Witness.parse / clone / serialize
+    for items in ([], [b""], [b"a", b"\x50"], [b"\x51", bytes([0xc0]) + G_[0].to_bytes(32, "big")], [bytes(300), b"", b"\x50" * 3],
+                  [b"x"] * 253):
+        ctx.label("audit/witness defaults, clone, parse")
+        yield ("prop", "witness_default", [items, ctx.rbytes(r.randrange(0, 4))])
+    # (g) results edited and the tree asked again; failure then retry; (a) reference-built witness verified twice
+    _, pe = key_of_parity(r, 0)
+    _, po = key_of_parity(r, 1)
+    shapes_ = [(None, None), ((None, (None, None)), (None, None))] + [rand_shape(r, r.randrange(2, 9)) for _ in range(ctx.n(0, 12))]
+    for num, shape in enumerate(shapes_):
+        tv = fill(shape, r, ctx)
+        pv = pe if num % 2 == 0 else po
+        ctx.label("audit/result edited, source asked again")
+        yield ("prop", "result_edit", [tv, pv, r.getrandbits(30)])
+        ctx.label("audit/failure then retry")
+        yield ("prop", "retry", [tv, po if num % 2 == 0 else pe, r.getrandbits(30)])
+        lvs = tree_leaves(tv)
+        idx = r.randrange(len(lvs))
+        ctx.label("audit/reference witness verified twice")
+        yield ("prop", "respend", [tv, pv, idx, [b"", b"\x00", ctx.rbytes(3)][num % 3]])
+        yield ("prop", "respend", [tv, pv, (idx + 1) % len(lvs), ctx.rbytes(1 + num)])
+    # (a) producers
+    base = 2 + r.randrange(1 << 16)
+    for mode, secrets, k in ([(0, [base, base + 1, base + 2], 2), (0, [153, base + 3], 1), (1, [base, base + 1, base + 2], 2),
+                              (1, [base + 1, base], 2), (2, [base, base + 1, base + 2], 2), (3, [base, base + 1, base + 2], 2)]
+                             + ([(1, [base + i for i in range(4)], 3), (3, [base + i for i in range(4)], 3)] if thorough else [])):
+        ctx.label(f"audit/producers mode={mode} n={len(secrets)} k={k}")
+        yield ("prop", "producers", [secrets, k, mode])
+    ctx.label("audit/S256Point.p2pk_tap_script")
+    yield ("prop", "p2pk_entry", [153])
+    yield ("prop", "p2pk_entry", [N_ - base])
+    # (a) the same key through every constructor
+    for s in [base + 7] + [rand_secret(r) for _ in range(ctx.n(0, 6))]:
+        ctx.label("audit/key routes")
+        yield ("prop", "key_routes", [s, ctx.rbytes(32)])
+
+
 # ------------------------------------------------------------------ generators
 
 
@@ -1298,3 +1954,5 @@ def generate(ctx):
     for _ in range(ctx.n(20, 300)):
         n = r.choice([33, 65, 97, 33, r.randrange(0, 140)])
         yield ("prop", "cb_converse", [ctx.rbytes(n)])
+    # --- audit round (entry points, defaults, coincidences, byte classes, shared state, retry)
+    yield from audit_cases(ctx)
